@@ -494,8 +494,20 @@ func suiteC01(c *ctx) {
 		h.d = h.cfg.dir(h.base)
 		nu := 1 + r.Intn(4)
 		perm := r.Intn(len(namePool))
-		for i := 0; i < nu; i++ {
-			h.users = append(h.users, namePool[(perm+i)%len(namePool)])
+		if r.Intn(3) == 0 {
+			// a family of related names: each is another one extended by a dot, a realm, an extension
+			p := namePool[perm]
+			fam := []string{p, p + ".doe", p + ".user", p + ".admin", p + ".doe.x", p + "@m", p + "-x", p + "."}
+			nu = 2 + r.Intn(4)
+			off := r.Intn(len(fam))
+			h.users = append(h.users, p)
+			for i := 0; i < nu; i++ {
+				h.users = append(h.users, fam[1+(off+i)%(len(fam)-1)])
+			}
+		} else {
+			for i := 0; i < nu; i++ {
+				h.users = append(h.users, namePool[(perm+i)%len(namePool)])
+			}
 		}
 		if r.Intn(12) == 0 {
 			h.users = append(h.users, longName(r.Pick(248, 249, 250, 251)))
